@@ -271,8 +271,11 @@ Section Oracles.
     end.
 
   (* static reachability along admissible-provider edges (over-approximates "depends back") *)
+  (* a by-name point requests its target whether or not it turns out to be assignable: the named
+     component is created on behalf of the holder, so it counts as an edge for "depends back" *)
   Definition succs (n : name) : list name :=
-    flat_map (fun kp => providers n (snd kp)) (points_of n).
+    flat_map (fun kp => providers n (snd kp)
+                        ++ match pt_sel (snd kp) with SByName (Some m) => [m] | _ => [] end) (points_of n).
 
   Fixpoint reach (fuel : nat) (frontier seen : list name) : list name :=
     match fuel with
